@@ -425,7 +425,10 @@ def arming(cx: Ctx, rule: str):
 def reject_before_record(cx: Ctx, rule: str):
     run = cx.run
     refresh = cx.m(TS, "refresh")
-    paths = cx.eng.paths(refresh, recv=TS)
+    pol = NoInline()
+    pol.fork_uncaught = True  # the 'new' callback may reject (raise): those paths are part of the contract
+    pol.load_raises = ()      # (the per-address dict is a defaultdict: subscripting the store does not raise)
+    paths = engine(cx.prog, pol).paths(refresh, recv=TS)
     run.paths += len(paths)
     seen = 0
     for p in paths:
@@ -460,6 +463,15 @@ def reject_before_record(cx: Ctx, rule: str):
             ok = not sts
             run.ob(rule, f"{refresh.qual}:rejected-entry-not-recorded", ok, loc(refresh),
                    f"when the 'new' callback raises ({p.outcome[1]}) nothing is recorded" if ok else "a rejected entry is recorded anyway")
+            # ... and nothing is left behind for it: a TTL timer armed before the rejection stays armed with no record to
+            # own it; it later removes whatever is stored under that key then (an accepted successor)
+            armed = [e for e in p.events if e.kind == "call" and e.sched == "later" and not e.raised]
+            cancelled = [e for e in p.events if e.kind == "call" and e.attrname == "cancel" and not e.targets]
+            ok2 = not armed or len(cancelled) >= len(armed)
+            run.ob(rule, f"{refresh.qual}:rejected-entry-arms-no-timer", ok2, loc(refresh, armed[0].node if armed else None),
+                   "a rejected entry leaves no TTL timer behind" if ok2 else
+                   "the TTL timer is armed before the 'new' callback and survives its rejection: it fires for a key that was never recorded and "
+                   "removes the entry a later, accepted request stored under it")
         if not is_new:
             ok = not news and not dnews
             run.ob(rule, f"{refresh.qual}:refresh-is-silent", ok, loc(refresh), f"refreshing a known entry makes {len(news) + len(dnews)} 'new' callback(s) (must be 0)")
